@@ -159,25 +159,22 @@ func (r *Resolver) AutoTA() {
 
 	tombstones, err := readTombstones(tombstonePath)
 	if err != nil {
-		// Distinguish "transient inability to read" from "actual
-		// corruption". A sharing violation on Windows (concurrent
-		// writer renaming over the file) or a permission hiccup is
-		// not the same as a malformed gob payload. We only fail
-		// closed when we successfully read bytes that don't decode
-		// — readTombstones surfaces that as errCorruptTombstones.
-		// Other open errors leave us with an empty in-memory map
-		// and the next AutoTA tick (or a process restart in the
-		// non-transient case) can re-load.
-		if errors.Is(err, errCorruptTombstones) {
-			zlog.Error("Trust anchor tombstones file corrupted — clearing in-memory trust set and aborting refresh", "path", tombstonePath, "error", err.Error())
-			r.Lock()
-			r.rootKeys = nil
-			r.Unlock()
-			refreshResult = taRefreshPersistenceError
-			return
-		}
-		zlog.Warn("Trust anchor tombstones file unreadable — proceeding with empty in-memory tombstones", "path", tombstonePath, "error", err.Error())
-		tombstones = make(Tombstones)
+		// The revocation store exists but could not be loaded — undecodable
+		// bytes or an open/read error; readTombstones maps "does not exist"
+		// to an empty store, so this is never a first run. Carrying on with
+		// an empty map is not a transient degradation: every tombstoned key
+		// that cfg.RootKeys still lists is merged back and published as a
+		// trust anchor, and the persistence tail below then replaces the
+		// store with that empty map, so the revocations are gone for good.
+		// Without the store it cannot be known which keys must not be
+		// trusted: fail closed, as for a corrupt store, and let the next
+		// refresh that can read it restore trust.
+		zlog.Error("Trust anchor tombstones file unreadable or corrupted — clearing in-memory trust set and aborting refresh", "path", tombstonePath, "error", err.Error())
+		r.Lock()
+		r.rootKeys = nil
+		r.Unlock()
+		refreshResult = taRefreshPersistenceError
+		return
 	}
 
 	// Copy legacy Revoked/Removed entries into the material-keyed
